@@ -183,8 +183,18 @@ _WORLD = {
     'C19': ((2, 0, 6), (3, 0, 8)),
     'C20': ((2, 1, 4), (2, 2, 6)),
 }
+# extra runs (modules, deviations, depth) per tier: wider populations at smaller depth
+_WORLD_EXTRA = {
+    'C02': ([(3, 1, 3)], [(3, 1, 4)]),
+    'C08': ([(3, 0, 3)], []),
+    'C19': ([(3, 0, 4)], []),
+    'C01': ([(3, 1, 4)], []),
+}
 for _p, (_q, _t) in _WORLD.items():
+    _xq, _xt = _WORLD_EXTRA.get(_p, ([], []))
     CHECKS[_p] = dict(title=_p, parallel=1, rule='BFS over histories of the %s profile of harness/world.c (see DESIGN.md 6/%s): dedup on (canonical monitor state, last k ops), 2 probe suffixes per new state' % (_p, _p),
-                      bounds=dict(quick='modules=%d deviations<=%d depth=%d' % _q, thorough='modules=%d deviations<=%d depth=%d k=2' % _t),
+                      bounds=dict(quick='modules=%d deviations<=%d depth=%d' % _q + ''.join('; modules=%d deviations<=%d depth=%d' % x for x in _xq),
+                                  thorough='modules=%d deviations<=%d depth=%d k=2' % _t + ''.join('; modules=%d deviations<=%d depth=%d' % x for x in _xt)),
                       assumptions=['single thread, one context', 'real kernel pipes/epoll, virtual time through the link-time shim', 'handles passed are live references owned by the caller'],
-                      parts=[world_part('w', quick=[_w(_p, _q[0], _q[1], _q[2], 200)], thorough=[_w(_p, _t[0], _t[1], _t[2], 2400, 2)])])
+                      parts=[world_part('w', quick=[_w(_p, _q[0], _q[1], _q[2], 200)] + [_w(_p, x[0], x[1], x[2], 200) for x in _xq],
+                                        thorough=[_w(_p, _t[0], _t[1], _t[2], 2400, 2)] + [_w(_p, x[0], x[1], x[2], 1200, 2) for x in _xt])])
